@@ -74,7 +74,10 @@ int32_t tls13ValidateRecordHeader(sslRec_t *rec)
     if (rec->type == SSL_RECORD_TYPE_ALERT)
     {
         if (rec->len < 2 || rec->len > 2 + TLS_GCM_TAG_LEN)
-        psTraceErrr("Invalid alert length\n");
+        {
+            psTraceErrr("Invalid alert length\n");
+            return PS_PARSE_FAIL;
+        }
     }
     /* Ignore legacy_version field. */
 
@@ -509,6 +512,13 @@ parse_next_record_header:
     }
     else if (innerType == SSL_RECORD_TYPE_ALERT)
     {
+        if (ptLen < 2)
+        {
+            /* An alert is two octets; an error return from here would
+               reach the caller without an error code. */
+            ssl->err = SSL_ALERT_DECODE_ERROR;
+            goto encodeResponse;
+        }
         (void)psParseBufFromStaticData(&alertBuf, decryptTo, ptLen);
         rc = tls13ParseAndHandleAlert(ssl,
                 &alertBuf,
